@@ -685,7 +685,11 @@ func (s *SweepingProvider) reprovideTimeForPrefix(prefix bitstr.Key) time.Durati
 	k := prefix.Xor(order)
 	val, _ := strconv.ParseInt(string(k), 2, 64)
 	// Calculate the time offset as a fraction of the overall reprovide interval.
-	return time.Duration(int64(s.reprovideInterval) * val / maxInt)
+	// interval*val overflows int64 for long prefixes (e.g. 22h with 18+ bits), so
+	// split the interval by maxInt: interval*val/maxInt ==
+	// (interval/maxInt)*val + (interval%maxInt)*val/maxInt, with small products.
+	interval := int64(s.reprovideInterval)
+	return time.Duration(interval/maxInt*val + interval%maxInt*val/maxInt)
 }
 
 // approxPrefixLen makes a few GetClosestPeers calls to get an estimate
